@@ -1,6 +1,7 @@
 package secure
 
 import (
+	"bytes"
 	"context"
 	"fmt"
 	"net"
@@ -21,7 +22,7 @@ import (
 
 func TestC04SSHAdversary(t *testing.T) {
 	const sub = "C04.ssh_auth_step_adversary"
-	ev.Rule(sub, "rapid: an SSH swarm (victim server) and an adversarial client built from a fork of the SSH client library that executes a generated list of 1-8 authentication steps over the attacker's own key pair and the public keys of 1-2 other identities: query(key) (asks whether a key would be acceptable, no signature) and sign(attacker) in any order with repeats, ending with a valid signature by the attacker; then the adversary sends tells and asks. Honest swarms with the queried identities send traffic concurrently. Oracle inside every callback: Src's fingerprint (and LookupPublicKey) is the fingerprint of the key that signed the connection the payload came through: the attacker's payloads are attributed to the attacker, never to an identity that was only queried. non-trivial = step list containing a query of a victim key; distinct by step list")
+	ev.Rule(sub, "rapid: an SSH swarm (victim server) and an adversarial client built from a fork of the SSH client library that executes a generated list of 1-8 authentication steps over the attacker's own key pair and the public keys of 1-2 other identities: query(key) (asks whether a key would be acceptable, no signature) and sign(attacker) in any order with repeats, ending with a valid signature by the attacker - with its plain key or with an OpenSSH certificate for its key whose issuer field names itself, a victim or the server (junk issuer signature); then the adversary sends tells and asks. Honest swarms with the queried identities send traffic concurrently. Oracle inside every callback: Src's fingerprint (and LookupPublicKey) is the fingerprint of the key that signed the connection the payload came through: the attacker's payloads are attributed to the attacker's key (or to the certificate it presented), never to an identity that was only queried or only named as issuer. non-trivial = step list containing a query of a victim key; distinct by step list")
 	rapid.Check(t, func(t *rapid.T) {
 		// identities: 0 = server, 1 = victim A, 2 = victim B, 3 = attacker
 		mkSigner := func(i int) gossh.Signer {
@@ -76,8 +77,41 @@ func TestC04SSHAdversary(t *testing.T) {
 				desc = append(desc, "sign(attacker)")
 			}
 		}
-		steps = append(steps, evilssh.ScriptStep{Signer: evilSigner})
-		desc = append(desc, "sign(attacker)")
+		// the credential that finally authenticates: the attacker's plain key, or an OpenSSH certificate for the
+		// attacker's key whose issuer field names the attacker itself or a victim (nobody checks the issuer's
+		// signature during user authentication; the proof of possession is for the certified key only)
+		certFP := ""
+		switch cred := rapid.SampledFrom([]string{"plain", "plain", "cert-self", "cert-by-victimA", "cert-by-victimB", "cert-by-server"}).Draw(t, "finalCredential"); cred {
+		case "plain":
+			steps = append(steps, evilssh.ScriptStep{Signer: evilSigner})
+			desc = append(desc, "sign(attacker)")
+		default:
+			issuer := evilSigner.PublicKey()
+			switch cred {
+			case "cert-by-victimA":
+				issuer = evilPub(1)
+				queriedVictim = true
+			case "cert-by-victimB":
+				issuer = evilPub(2)
+				queriedVictim = true
+			case "cert-by-server":
+				issuer = evilPub(0)
+			}
+			cert := &evilssh.Certificate{
+				Key: evilSigner.PublicKey(), Serial: 1, CertType: evilssh.UserCert, KeyId: "x", ValidPrincipals: []string{"x"},
+				ValidBefore: evilssh.CertTimeInfinity, SignatureKey: issuer,
+				Signature: &evilssh.Signature{Format: issuer.Type(), Blob: bytes.Repeat([]byte{0x5a}, 64)},
+			}
+			cs, err := evilssh.NewCertSigner(cert, evilSigner)
+			if err != nil {
+				t.Fatalf("harness: %v", err)
+			}
+			if k, err := gossh.ParsePublicKey(cert.Marshal()); err == nil {
+				certFP = gossh.FingerprintSHA256(k)
+			}
+			steps = append(steps, evilssh.ScriptStep{Signer: cs})
+			desc = append(desc, "sign(attacker, "+cred+")")
+		}
 		script := strings.Join(desc, ", ")
 		ev.Eval(sub)
 		if queriedVictim {
@@ -102,7 +136,7 @@ func TestC04SSHAdversary(t *testing.T) {
 			mu.Lock()
 			defer mu.Unlock()
 			got[payload] = true
-			if m.Src.Fingerprint != want {
+			if m.Src.Fingerprint != want && !(certFP != "" && strings.HasPrefix(payload, "attacker") && m.Src.Fingerprint == certFP) {
 				who := "an unknown key"
 				for i, name := range []string{"the server", "victim A", "victim B", "the attacker"} {
 					if m.Src.Fingerprint == fp(i) {
@@ -115,7 +149,7 @@ func TestC04SSHAdversary(t *testing.T) {
 			cf()
 			if pk, err := server.LookupPublicKey(pctx, m.Src); err != nil {
 				problems = append(problems, fmt.Sprintf("LookupPublicKey(Src) inside the handler failed: %v", err))
-			} else if gossh.FingerprintSHA256(pk) != want {
+			} else if gossh.FingerprintSHA256(pk) != want && !(certFP != "" && strings.HasPrefix(payload, "attacker") && gossh.FingerprintSHA256(pk) == certFP) {
 				problems = append(problems, fmt.Sprintf("LookupPublicKey(Src) for %q returned a key with fingerprint %s, the connection was authenticated with %s", payload, gossh.FingerprintSHA256(pk), want))
 			}
 		}
